@@ -3,7 +3,8 @@
 //
 // Every case of the specification is instantiated as a REAL transaction: real keys, real signing hashes
 // (types.DefaultSigner / ReimbursementTxSigner / GasPayerSigner), real multi-signature accounts configured by
-// real ModifySignersTx transactions, real boxes.  The transaction is handed
+// real ModifySignersTx transactions, real boxes (whose JSON data an attacker may have re-written after the box
+// sender signed: other sub-transaction, forged / missing "hash" member).  The transaction is handed
 //
 //	Offer:    to a mining node (node.Build -> BlockAssembler.MineBlock -> TxProcessor.ApplyTxs), and
 //	Validate: inside a block to a second node (DPoVP.InsertBlock -> TxProcessor.Process).  When the miner packaged
@@ -30,6 +31,7 @@ import (
 	"github.com/LemoFoundationLtd/lemochain-core/chain/types"
 	"github.com/LemoFoundationLtd/lemochain-core/common"
 	"github.com/LemoFoundationLtd/lemochain-core/common/crypto"
+	"github.com/LemoFoundationLtd/lemochain-core/common/hexutil"
 	"github.com/LemoFoundationLtd/lemochain-core/common/rlp"
 	"github.com/LemoFoundationLtd/lemochain-core/store/protocol"
 
@@ -559,11 +561,19 @@ func (a *adapter) offer(c tla.Value) (engine.Fields, error) {
 	if a.pend != nil {
 		return nil, fmt.Errorf("Offer while a case is pending")
 	}
-	kind, f, pay, box := c.F("kind").S(), c.F("f").S(), c.F("pay").S(), c.F("box").S()
+	kind, f, pay, box, label := c.F("kind").S(), c.F("f").S(), c.F("pay").S(), c.F("box").S(), c.F("label").S()
 	sigs, psigs := sigSpecs(c.F("sigs")), sigSpecs(c.F("psigs"))
+	// the account named as gas payer and the keys of its registered signers
 	var payer *acct
-	if pay == "payer" {
+	payerRing := a.psigner
+	switch pay {
+	case "self":
+	case "payer":
 		payer = a.ensurePayer(ints(c.F("pcfg")))
+	case "own": // reimbursed form, the sender account reimburses itself
+		payer, payerRing = a.sender, a.signer
+	default:
+		return nil, fmt.Errorf("unknown pay %s", pay)
 	}
 	pos := a.head
 	v := a.view(a.builder.DB, pos.blk.Hash())
@@ -611,35 +621,38 @@ func (a *adapter) offer(c tla.Value) (engine.Fields, error) {
 		return cur
 	}
 	var senderScheme types.Signer = types.DefaultSigner{}
-	if pay == "payer" {
+	if pay != "self" {
 		senderScheme = types.ReimbursementTxSigner{}
 	}
-	var curSigs [][]byte
+	var curSigs, origSigs [][]byte // origSigs: the same signers on the content before the change
 	for _, sg := range sigs {
 		curSigs = append(curSigs, a.sign(pick(sg.old), senderScheme, a.keyOf(sg.by, a.sender, a.signer), sg.v))
+		origSigs = append(origSigs, a.sign(orig, senderScheme, a.keyOf(sg.by, a.sender, a.signer), sg.v))
 	}
 	// what the payer saw when it signed before the change: for f = "sigs" the first sender signature in its other encoding
 	oldSigs := curSigs
 	if f == "sigs" && len(sigs) > 0 {
 		oldSigs = append([][]byte{a.sign(pick(sigs[0].old), senderScheme, a.keyOf(sigs[0].by, a.sender, a.signer), 1-sigs[0].v)}, curSigs[1:]...)
+		origSigs = oldSigs
 	}
 	payerSig := func(ct content, ss [][]byte, k *ecdsa.PrivateKey, variant int) []byte {
 		r := ct.raw()
 		r.Sigs = ss
 		return signHash(types.GasPayerSigner{}.Hash(r.tx()), k, variant)
 	}
-	var curPSigs [][]byte
+	var curPSigs, origPSigs [][]byte
 	for _, sg := range psigs {
 		ss := curSigs
 		if sg.old {
 			ss = oldSigs
 		}
-		curPSigs = append(curPSigs, payerSig(pick(sg.old), ss, a.keyOf(sg.by, payer, a.psigner), sg.v))
+		curPSigs = append(curPSigs, payerSig(pick(sg.old), ss, a.keyOf(sg.by, payer, payerRing), sg.v))
+		origPSigs = append(origPSigs, payerSig(orig, origSigs, a.keyOf(sg.by, payer, payerRing), sg.v))
 	}
 	// ---- the properly signed twin of the submitted content
 	var twinSigs, twinPSigs [][]byte
 	twinScheme := senderScheme
-	twinPayer := payer
+	twinPayer, twinRing := payer, payerRing
 	if cur.gasPayer != cur.from && payer == nil { // tampered gasPayer field: the twin is a reimbursed transaction paid by payer2
 		twinScheme = types.ReimbursementTxSigner{}
 		twinPayer = a.payer2
@@ -649,19 +662,22 @@ func (a *adapter) offer(c tla.Value) (engine.Fields, error) {
 	}
 	if twinPayer != nil {
 		if cur.gasPayer != twinPayer.addr { // tampered gasPayer field in a reimbursed transaction
-			twinPayer = a.payer2
+			twinPayer, twinRing = a.payer2, a.psigner
 		}
-		for _, k := range a.holders(v, twinPayer, a.psigner) {
+		for _, k := range a.holders(v, twinPayer, twinRing) {
 			twinPSigs = append(twinPSigs, payerSig(cur, twinSigs, k, 0))
 		}
 	}
-	inner := func(ss, ps [][]byte) *types.Transaction {
-		r := cur.raw()
+	inner := func(ct content, ss, ps [][]byte) *types.Transaction {
+		r := ct.raw()
 		r.Sigs, r.GasPayerSigs = ss, ps
 		return r.tx()
 	}
-	wrap := func(sub *types.Transaction, k *ecdsa.PrivateKey) *types.Transaction {
-		data, err := types.MarshalBoxData(types.Transactions{sub})
+	// wrap: the box sender (key k) signs a box that carries `signed`; the box data that is submitted carries `carried`
+	// in the JSON form the case's label describes (kept: the hash of the sub-transaction before the change)
+	seq := a.seq
+	wrap := func(signed, carried *types.Transaction, k *ecdsa.PrivateKey, label string) *types.Transaction {
+		data, err := types.MarshalBoxData(types.Transactions{signed})
 		if err != nil {
 			engine.Failf("box data: %v", err)
 		}
@@ -669,24 +685,47 @@ func (a *adapter) offer(c tla.Value) (engine.Fields, error) {
 			gasPrice: new(big.Int).Set(unit), gasLimit: gasLimit, amount: new(big.Int), data: data, exp: orig.exp - 10}
 		r := bc.raw()
 		r.Sigs = [][]byte{a.sign(bc, types.DefaultSigner{}, k, 0)}
+		if carried != signed || label != "true" {
+			var claim *common.Hash
+			switch label {
+			case "true":
+				h := carried.Hash()
+				claim = &h
+			case "none":
+			case "kept":
+				h := inner(orig, origSigs, origPSigs).Hash()
+				claim = &h
+			case "wrong":
+				h := crypto.Keccak256Hash([]byte(fmt.Sprintf("verif/auth/label%d", seq)))
+				claim = &h
+			default:
+				engine.Failf("unknown label %q", label)
+			}
+			r.Data = boxJSON(carried, claim, nil)
+		}
 		return r.tx()
 	}
 	mk := func() (*types.Transaction, *types.Transaction) {
-		ct, tw := inner(curSigs, curPSigs), inner(twinSigs, twinPSigs)
+		ct, tw := inner(cur, curSigs, curPSigs), inner(cur, twinSigs, twinPSigs)
 		switch box {
+		case "none":
+			return ct, tw
 		case "ok":
-			return wrap(ct, a.wrapper.key), wrap(tw, a.wrapper.key)
+			return wrap(ct, ct, a.wrapper.key, label), wrap(tw, tw, a.wrapper.key, "true")
 		case "bad":
-			return wrap(ct, a.foreign.key), wrap(tw, a.wrapper.key)
+			return wrap(ct, ct, a.foreign.key, label), wrap(tw, tw, a.wrapper.key, "true")
+		case "old": // the box sender signed before the change
+			return wrap(inner(orig, origSigs, origPSigs), ct, a.wrapper.key, label), wrap(tw, tw, a.wrapper.key, "true")
 		}
-		return ct, tw
+		engine.Failf("unknown box %q", box)
+		return nil, nil
 	}
 	// ---- hand it to the miner
 	sj := subjects{s: a.sender.addr, to: to, other: to, p: a.payer2.addr}
 	if cur.to != nil && *cur.to != to && *cur.to != a.sender.addr {
 		sj.other = *cur.to
 	}
-	if payer != nil {
+	if pay == "payer" {
 		sj.p = payer.addr
 	}
 	pre := a.observe(v, sj)
@@ -705,7 +744,7 @@ func (a *adapter) offer(c tla.Value) (engine.Fields, error) {
 	fl := engine.Fields{"cfg": pre.cfg, "intake": ierr == nil, "packaged": packaged, "invalid": len(invalid) == 1, "ntx": len(blk.Txs),
 		"amount": units(cur.amount), "sameTo": sj.other == sj.to, "tx": common.ToHex(enc), "hash": caseTx.Hash().Hex()}
 	if payer != nil {
-		fl["pcfg"] = a.cfgOf(v, payer.addr, a.psigner)
+		fl["pcfg"] = a.cfgOf(v, payer.addr, payerRing)
 	} else {
 		fl["pcfg"] = []int{}
 	}
@@ -717,6 +756,47 @@ func (a *adapter) offer(c tla.Value) (engine.Fields, error) {
 		a.head = chainPos{blk, r}
 	}
 	return fl, nil
+}
+
+// boxJSON is the box data carrying sub in the JSON form an attacker chooses: the "hash" member claims *claim (nil: no such
+// member); gasUsed as given (nil: as in sub).
+func boxJSON(sub *types.Transaction, claim *common.Hash, gasUsed *uint64) []byte {
+	data, err := types.MarshalBoxData(types.Transactions{sub})
+	if err != nil {
+		engine.Failf("box data: %v", err)
+	}
+	return patchBoxJSON(data, claim, true, gasUsed)
+}
+
+// patchBoxJSON edits the JSON text of box data with one sub-transaction without decoding it into a transaction.
+func patchBoxJSON(data []byte, claim *common.Hash, setClaim bool, gasUsed *uint64) []byte {
+	var m map[string][]map[string]json.RawMessage
+	if err := json.Unmarshal(data, &m); err != nil || len(m) != 1 || len(m["subTxList"]) != 1 {
+		engine.Failf("box data is not a box with one sub-transaction: %v %s", err, data)
+	}
+	sub := m["subTxList"][0]
+	enc := func(x interface{}) json.RawMessage {
+		b, err := json.Marshal(x)
+		if err != nil {
+			engine.Failf("box data: %v", err)
+		}
+		return b
+	}
+	if setClaim {
+		if claim == nil {
+			delete(sub, "hash")
+		} else {
+			sub["hash"] = enc(*claim)
+		}
+	}
+	if gasUsed != nil {
+		sub["gasUsed"] = enc(hexutil.Uint64(*gasUsed))
+	}
+	out := enc(m)
+	if _, err := types.GetBox(out); err != nil {
+		engine.Failf("edited box data does not parse: %v", err)
+	}
+	return out
 }
 
 func (a *adapter) validate() (engine.Fields, error) {
@@ -756,20 +836,12 @@ func (a *adapter) validate() (engine.Fields, error) {
 		caseTx.SetGasUsed(tb.Txs[0].GasUsed())
 		if caseTx.Type() == params.BoxTx {
 			tbox, err1 := types.GetBox(tb.Txs[0].Data())
-			cbox, err2 := types.GetBox(caseTx.Data())
-			if err1 != nil || err2 != nil || len(tbox.SubTxList) != 1 || len(cbox.SubTxList) != 1 {
-				engine.Failf("box data of the twin block: %v %v", err1, err2)
+			if err1 != nil || len(tbox.SubTxList) != 1 {
+				engine.Failf("box data of the twin block: %v", err1)
 			}
-			cbox.SubTxList[0].SetGasUsed(tbox.SubTxList[0].GasUsed())
-			data, err := types.MarshalBoxData(cbox.SubTxList)
-			if err != nil {
-				engine.Failf("box data: %v", err)
-			}
-			h := caseTx.Hash()
-			caseTx.SetData(data)
-			if caseTx.Hash() != h {
-				engine.Failf("box hash changed by gasUsed")
-			}
+			// the sub-transaction's gasUsed as an executing miner writes it; everything else of the JSON form stays as submitted
+			gas := tbox.SubTxList[0].GasUsed()
+			caseTx.SetData(patchBoxJSON(caseTx.Data(), nil, false, &gas))
 		}
 		offered = node.Copy(tb, nil)
 		offered.Txs = types.Transactions{caseTx}
